@@ -703,8 +703,8 @@ def run_docs(ctx, exe, exe_stream=None):
     timing = {}
     rng = ctx.rng
     quick = ctx.quick()
-    n_synth = 50 if quick else 500
-    n_mut = 40 if quick else 600
+    n_synth = 50 if quick else 300
+    n_mut = 40 if quick else 300
     items = []
     for cid, d in regression_docs():
         items.append((cid, d, "reg"))
@@ -744,7 +744,7 @@ def run_docs(ctx, exe, exe_stream=None):
     model, model_err = None, None
     try:
         # the model listing is the expensive part: in the quick tier on a prefix of every source
-        lim_s, lim_m = (28, 18) if quick else (10 ** 9, 10 ** 9)
+        lim_s, lim_m = (20, 14) if quick else (150, 100)
         pick = [n for n, (cid, d, src) in enumerate(items)
                 if src == "reg" or (src == "synth" and n < len(regression_docs()) + lim_s)
                 or (src == "mut" and n < n_playable + lim_m)]
@@ -772,8 +772,9 @@ def run_docs(ctx, exe, exe_stream=None):
         for n in range(n_playable):
             cid, d, hz, ft = full[n]
             base = first[bname][n]
-            if base.get("load") != "ok" or not isinstance(base.get("audit"), list) or base.get("out_of_fuel"):
-                continue
+            if base.get("load") != "ok" or not isinstance(base.get("audit"), list) or base.get("out_of_fuel") \
+                    or (base.get("steps") or 0) > FUEL // 3:
+                continue        # (a document that nearly exhausts the step budget could exhaust it in one variant only)
             cs = play_cases(cid, d, base, base["audit"], sub)
             owner.append((n, len(allc), len(allc) + len(cs)))
             allc += cs
@@ -799,7 +800,8 @@ def run_docs(ctx, exe, exe_stream=None):
     eng = dict(compared=0, agree=0, skipped=0)
     try:
         import engine
-        lim = 24 if quick else 400
+        lim = 24 if quick else 150
+        eng_cases.sort(key=lambda c: 0 if c["id"].endswith("|E") else 1 if c["id"].endswith("|P") else 2)
         sel = eng_cases[:lim]
         rs = engine.compare([{k: v for k, v in c.items() if k != "doc"} for c in sel], exe, shard=max(4, len(sel) // 12 + 1))
         for c, r in zip(sel, rs):
